@@ -252,6 +252,11 @@ def case_history(rep):
                     run.skip("trace", "injected infeasible substep converged")
                 elif nyield < fail_at:
                     run.skip("trace", "a regular substep before the injected one did not converge (history too severe)")
+                elif nyield > fail_at:
+                    # the substep meant to be infeasible converged and a LATER substep failed (sweep #12, thorough seed 29: an iteration-limit
+                    # jump that Newton survived, then a regular substep from that strongly deformed state did not converge): the position clause
+                    # has nothing to say; that nothing follows the real failure is the trace clause `nothing-after-failure`
+                    run.skip("trace", "the injected infeasible substep converged, a later substep failed")
                 else:
                     run.fail("trace", "trace clause=stops-at-first-failure", "%s: %d results before the failure injected at substep %d" % (label, nyield, fail_at))
             elif raised is not None:
